@@ -165,7 +165,9 @@ def tie_b(ctx):
 
 def configs(tier):
     if tier == "quick":
-        return [("native", "avx512f", "plain"), ("native", "avx512f,avx2,avx1", "plain"), ("portable", "", "plain")]
+        # the all-off mask selects the 64-bit portable backends of the native build (poly1305_donna64, reference ChaCha20 / Salsa20 / BLAKE2b, fe51 ref10
+        # ladder), which neither the SIMD masks nor the portable build (donna32, 25.5-bit limbs) execute
+        return [("native", "avx512f", "plain"), ("native", "avx512f,avx2,avx1", "plain"), ("native", vcore.ALL_OFF, "plain"), ("portable", "", "plain")]
     return [("native", m, "plain") for m in vcore.MASK_CHAIN[1:]] + [("noasm", "avx512f", "plain"), ("noti", "avx512f", "plain"), ("portable", "", "plain")]
 
 
